@@ -74,14 +74,34 @@ def between(rng, ops, live):
     return live, queued
 
 
+def other_value(rng, v):
+    w = rng.randint(0, 31)
+    return w if w != v else (v + 7) % 32
+
+
+def host_noise(rng, ops, names, vals, before):
+    """what a host may do around instantiate() without changing what is committed:
+    before: an instantiate() that FAILS because a later template has no value yet (the host catches
+    the KeyError) while earlier templates get other values than in the retry;
+    after: the host goes on using (mutating) the dictionary it passed to instantiate()"""
+    if before and len(names) >= 2 and rng.random() < 0.5:
+        k = rng.randint(1, len(names) - 1)
+        ops.append(["instantiate_fail", {t: other_value(rng, vals[t]) for t in names[:k]}])
+    if not before and names and rng.random() < 0.5:
+        ops.append(["mutate", {t: other_value(rng, vals[t]) for t in names if rng.random() < 0.7} or
+                    {names[0]: other_value(rng, vals[names[0]])}])
+
+
 def compile_triple(rng, ops, pend_t, allv, live):
     vals = {t: rng.randint(0, 31) for t in pend_t}
     allv.update(vals)
     del pend_t[:]
     ops.append(["compile"])
     live, q1 = between(rng, ops, live)
+    host_noise(rng, ops, list(vals), vals, before=True)
     ops.append(["instantiate", vals])
     live, q2 = between(rng, ops, live) if rng.random() < 0.5 else (live, False)
+    host_noise(rng, ops, list(vals), vals, before=False)
     ops.append(["commit"])
     if (q1 or q2) and rng.random() < 0.7:
         ops.append(["flush"])   # what was queued in between is sent on its own
@@ -111,7 +131,11 @@ def gen_rounds(rng):
             used.add((t, v))
             vals[t] = v
         allv.update({f"{t}@{rnd}": v for t, v in vals.items()})
-        ops += [["compile"], ["instantiate", vals], ["commit"]]
+        ops.append(["compile"])
+        host_noise(rng, ops, names, vals, before=True)
+        ops.append(["instantiate", vals])
+        host_noise(rng, ops, names, vals, before=False)
+        ops.append(["commit"])
         if rng.random() < 0.3:
             ops += [["gate", "h"], ["flush"]]
     ops += [["meas_arr"], ["flush"]]
@@ -134,7 +158,7 @@ def direct_version(ops, values=None):
             for (i, t) in held:
                 out[i][2] = o[1][t]
             held = []
-        elif o[0] == "commit":
+        elif o[0] in ("commit", "instantiate_fail", "mutate"):
             continue
         else:
             out.append(list(o))
@@ -156,6 +180,7 @@ def run_flow(repo, ops, values, hardware, script, subst_by_position=False):
         with pipe.connection() as conn:
             q, sub = None, None
             nsent = 0
+            shared = {}   # ONE values dictionary the host keeps reusing
 
             def snap():
                 nonlocal nsent
@@ -183,7 +208,16 @@ def run_flow(repo, ops, values, hardware, script, subst_by_position=False):
                     sub = conn.compile()
                 elif k == "instantiate":
                     if sub is not None:
-                        sub.instantiate(conn.app_id, dict(o[1]))
+                        shared.update(o[1])
+                        sub.instantiate(conn.app_id, shared)      # the host's own dictionary, not a copy
+                elif k == "instantiate_fail":
+                    if sub is not None:
+                        try:
+                            sub.instantiate(conn.app_id, dict(o[1]))
+                        except KeyError:
+                            pass                                   # the host catches it and retries later
+                elif k == "mutate":
+                    shared.update(o[1])
                 elif k == "commit":
                     if sub is not None:
                         conn.commit_subroutine(sub)
@@ -296,8 +330,11 @@ def model_ops(ops, values):
         elif k == "instantiate":
             vs = "".join(f'if String.eqb n "{t}" then {v} else ' for t, v in o[1].items())
             out.append(f"SInstantiate (fun n => ({vs}0)%Z)")
+        elif k == "instantiate_fail":
+            out.append("SInstantiateFail")
         elif k == "commit":
             out.append("SCommit")
+        # "mutate": the host changing its dictionary after instantiate() is not an operation on the connection
     return "[" + "; ".join(out) + "]"
 
 
@@ -372,6 +409,9 @@ def run(ctx):
             okj, pre, dire = judge(ctx, ops, values, hw, script, stats)
             nontriv = any(o[0] == "rot" and o[4] for o in ops) and ops[-1][0] == "flush"
             if hw == "generic":
+                for kind in ("instantiate_fail", "mutate"):
+                    if any(o[0] == kind for o in ops):
+                        stats["with_" + kind] = stats.get("with_" + kind, 0) + 1
                 if any(ops[i][0] == "compile" and any(o[0].startswith("meas") for o in ops[i + 1: i + 1 + next((j for j, x in enumerate(ops[i + 1:]) if x[0] == "commit"), 0)]) for i in range(len(ops))):
                     stats["results_queued_between_compile_and_commit"] = stats.get("results_queued_between_compile_and_commit", 0) + 1
                 stats["rounds>=2_same_block" if any(a.endswith("@1") for a in values) else "mixed"] = \
